@@ -16,24 +16,25 @@ def DefOK (cx : Cx) (m j : Nat) (dIn dOut : List LItem) : Option Nat → Prop
   | none => dOut = dIn
 
 /-- `Hn`: the header jumps, `Cn`: the blocks collected for the source cases `SC`; `dIn` / `dOut`: the default ops before / after.
-`L`, `Cs`: the loop and case stacks around the switch. -/
-structure SwSem (cx : Cx) (fuel : Nat) (env : Src.Env) (endL : Nat) (L : List (Nat × Nat)) (Cs : List Nat) (sE : St)
+`L`, `Cs`: the loop and case stacks around the switch.  `FI`: control can fall into the first block from above (a first block
+that was folded into its header jumps is only a label: it must not be fallen into). -/
+structure SwSem (cx : Cx) (fuel : Nat) (env : Src.Env) (endL : Nat) (L : List (Nat × Nat)) (Cs : List Nat) (sE : St) (FI : Prop)
     (SC : Src.Cases) (Hn Cn dIn dOut : List LItem) : Prop where
   grow : ∀ k nt b, Grow cx.Z b (Src.trCases fuel [] (brkEnv env k) SC k nt b).1
   corr : ∀ k nt r pH pC, Placed cx.rs r pH Hn → Placed cx.rs r pC Cn → ∀ b,
     AgreeOn cx.N cx.Z b (Src.trCases fuel [] (brkEnv env k) SC k nt b).1 → ∀ m j (sC : St), sC.loops = L → sC.cases = endL :: Cs →
     ExitsOK cx m j sC (brkEnv env k) → NamedIn cx sE → R2 cx m j ⟨r, pC + Cn.length⟩ k →
     (R2 cx m j ⟨r, pH + Hn.length⟩ nt → R2 cx m j ⟨r, pH⟩ (Src.trCases fuel [] (brkEnv env k) SC k nt b).2.2.1) ∧
-    R2 cx m j ⟨r, pC⟩ (Src.trCases fuel [] (brkEnv env k) SC k nt b).2.1 ∧
+    (FI → R2 cx m j ⟨r, pC⟩ (Src.trCases fuel [] (brkEnv env k) SC k nt b).2.1) ∧
     DefOK cx m j dIn dOut (Src.trCases fuel [] (brkEnv env k) SC k nt b).2.2.2 ∧
     LabExport cx env m j b (Src.trCases fuel [] (brkEnv env k) SC k nt b).1
 
-theorem sw_nil (cx : Cx) (fuel : Nat) (env : Src.Env) (endL : Nat) (L : List (Nat × Nat)) (Cs : List Nat) (sE : St) (d : List LItem) :
-    SwSem cx fuel env endL L Cs sE .nil [] [] d d := by
+theorem sw_nil (cx : Cx) (fuel : Nat) (env : Src.Env) (endL : Nat) (L : List (Nat × Nat)) (Cs : List Nat) (sE : St) (FI : Prop) (d : List LItem) :
+    SwSem cx fuel env endL L Cs sE FI .nil [] [] d d := by
   refine ⟨fun k nt b => by rw [trCases_nil]; exact Grow.refl b, ?_⟩
   intro k nt r pH pC _ _ b _ m j sC _ _ _ _ hend
   rw [trCases_nil]
-  exact ⟨fun h => by simpa using h, by simpa using hend, rfl, LabExport.same (fun _ _ => rfl)⟩
+  exact ⟨fun h => by simpa using h, fun _ => by simpa using hend, rfl, LabExport.same (fun _ _ => rfl)⟩
 
 /-- a case with a block: the header jumps of the handlers waiting for it, its own header jump, its block -/
 theorem sw_case (cx : Cx) (fuel : Nat) (env : Src.Env) (he : EnvOK cx env) (endL : Nat) (L : List (Nat × Nat)) (Cs : List Nat)
@@ -41,9 +42,9 @@ theorem sw_case (cx : Cx) (fuel : Nat) (env : Src.Env) (he : EnvOK cx env) (endL
     (htest : isTest bp.name = true)
     (hP : ∀ env', EnvOK cx env' → PieceOK cx ops sa sb (fun k b => Src.trStmts fuel [] env' (toSrcStmts body) k b) env')
     (hsaL : sa.loops = L) (hsaC : sa.cases = endL :: Cs) (hW : WaitSem cx fuel sL w hs dIn d1) {sE : St} (hle : NamedLe sb sE)
-    {SCr : Src.Cases} {Hr Cr dOut : List LItem} (hR : SwSem cx fuel env endL L Cs sE SCr Hr Cr d1 dOut)
-    (hnd : hasNone w = true → ∀ k nt b, (Src.trCases fuel [] (brkEnv env k) SCr k nt b).2.2.2 = none) :
-    SwSem cx fuel env endL L Cs sE (wSrc w (.cons false ⟨bp.name, convParams bp.params⟩ (toSrcStmts body) SCr))
+    {SCr : Src.Cases} {Hr Cr dOut : List LItem} (hR : SwSem cx fuel env endL L Cs sE (falls ops = true) SCr Hr Cr d1 dOut)
+    (hnd : hasNone w = true → ∀ k nt b, (Src.trCases fuel [] (brkEnv env k) SCr k nt b).2.2.2 = none) (FI : Prop) :
+    SwSem cx fuel env endL L Cs sE FI (wSrc w (.cons false ⟨bp.name, convParams bp.params⟩ (toSrcStmts body) SCr))
       (hs ++ [LItem.ljump ⟨n, bp.name, bp.params⟩ (some sL)] ++ Hr)
       ([LItem.label sL false] ++ ops ++ [LItem.label eB false] ++ Cr) dIn dOut := by
   have hsub : ∀ k, (brkEnv env k).subst = [] := fun k => he.1
@@ -98,7 +99,7 @@ theorem sw_case (cx : Cx) (fuel : Nat) (env : Src.Env) (he : EnvOK cx env) (endL
     rw [hBd] at this; exact this
   have hbody := hbody2.1
   have hstep := lab_test hitT (isTest_not_jump _ htest) htest
-  refine ⟨fun hnt => ?_, by rw [ebW]; exact hbody, ?_, LabExport.comp gR.len xR
+  refine ⟨fun hnt => ?_, fun _ => by rw [ebW]; exact hbody, ?_, LabExport.comp gR.len xR
     (LabExport.comp gB.len hbody2.2 (LabExport.same (fun i hi => ((Pushes.push _ _).trans gW).same hi)))⟩
   · have hnt' : R2 cx m j ⟨r, pH + hs.length + 1 + Hr.length⟩ nt := by
       have e : pH + hs.length + 1 + Hr.length = pH + (hs ++ [LItem.ljump ⟨n, bp.name, bp.params⟩ (some sL)] ++ Hr).length := by len_omega
@@ -128,9 +129,9 @@ theorem sw_default (cx : Cx) (fuel : Nat) (env : Src.Env) (he : EnvOK cx env) (e
     (hP : ∀ env', EnvOK cx env' → PieceOK cx ops sa sb (fun k b => Src.trStmts fuel [] env' (toSrcStmts body) k b) env')
     (hsaL : sa.loops = L) (hsaC : sa.cases = endL :: Cs)
     (hW : WaitSem cx fuel sL w hs [LItem.ljump ⟨n0, Gen.op_jump, []⟩ (some sL)] d1) {sE : St} (hle : NamedLe sb sE)
-    {SCr : Src.Cases} {Hr Cr dOut : List LItem} (hR : SwSem cx fuel env endL L Cs sE SCr Hr Cr d1 dOut)
-    (hnd : ∀ k nt b, (Src.trCases fuel [] (brkEnv env k) SCr k nt b).2.2.2 = none) :
-    SwSem cx fuel env endL L Cs sE (wSrc w (.cons true ⟨"", []⟩ (toSrcStmts body) SCr))
+    {SCr : Src.Cases} {Hr Cr dOut : List LItem} (hR : SwSem cx fuel env endL L Cs sE (falls ops = true) SCr Hr Cr d1 dOut)
+    (hnd : ∀ k nt b, (Src.trCases fuel [] (brkEnv env k) SCr k nt b).2.2.2 = none) (FI : Prop) :
+    SwSem cx fuel env endL L Cs sE FI (wSrc w (.cons true ⟨"", []⟩ (toSrcStmts body) SCr))
       (hs ++ Hr) ([LItem.label sL false] ++ ops ++ [LItem.label eB false] ++ Cr) dIn dOut := by
   have hsub : ∀ k, (brkEnv env k).subst = [] := fun k => he.1
   refine ⟨fun k nt b => ?_, ?_⟩
@@ -170,7 +171,7 @@ theorem sw_default (cx : Cx) (fuel : Nat) (env : Src.Env) (he : EnvOK cx env) (e
     have := loop_body_run cx hPe sL eB Cr hpBlk T0.2.1 T0.1 (by rw [hBd]; exact agB) m j hexA (hin.le hle) bR
     rw [hBd] at this; exact this
   have hbody := hbody2.1
-  refine ⟨fun hnt => ?_, by rw [ebW]; exact hbody, ?_, LabExport.comp gR.len xR
+  refine ⟨fun hnt => ?_, fun _ => by rw [ebW]; exact hbody, ?_, LabExport.comp gR.len xR
     (LabExport.comp gB.len hbody2.2 (LabExport.same (fun i hi => gW.same hi)))⟩
   · have hnt' : R2 cx m j ⟨r, pH + hs.length + Hr.length⟩ nt := by
       have e : pH + hs.length + Hr.length = pH + (hs ++ Hr).length := by len_omega
@@ -186,5 +187,86 @@ theorem sw_default (cx : Cx) (fuel : Nat) (env : Src.Env) (he : EnvOK cx env) (e
     obtain ⟨o, hd1⟩ := hd1
     have hres : DefOK cx m j dIn dOut (some Bd.2) := ⟨o, sL, by rw [dR, hd1], by rw [htgt]; exact hbody⟩
     cases hasNone w <;> simpa using hres
+
+theorem SwSem.weaken {cx : Cx} {fuel : Nat} {env : Src.Env} {endL : Nat} {L : List (Nat × Nat)} {Cs : List Nat} {sE : St} {FI FI' : Prop}
+    {SC : Src.Cases} {Hn Cn dIn dOut : List LItem} (h : SwSem cx fuel env endL L Cs sE FI' SC Hn Cn dIn dOut) (hi : FI → FI') :
+    SwSem cx fuel env endL L Cs sE FI SC Hn Cn dIn dOut :=
+  ⟨h.grow, fun k nt r pH pC h1 h2 b hag m j sC hl hc hex hin hend => by
+    obtain ⟨a, b', c, d⟩ := h.corr k nt r pH pC h1 h2 b hag m j sC hl hc hex hin hend
+    exact ⟨a, fun hf => b' (hi hf), c, d⟩⟩
+
+/-- a case whose block is one `Jump`, folded into the header jumps: they go where the jump goes; the block is only its end
+label, nothing falls into it -/
+theorem sw_fold (cx : Cx) (fuel : Nat) (env : Src.Env) (he : EnvOK cx env) (endL : Nat) (L : List (Nat × Nat)) (Cs : List Nat)
+    (w : List (Option BP)) (hs dIn d1 : List LItem) (l eB : Nat) (ops : List LItem) (sa sb : St) (body : Stmts) (n : Nat) (bp : BP)
+    (htest : isTest bp.name = true) (hlone : loneJump ops = some (some l))
+    (hP : ∀ env', EnvOK cx env' → PieceOK cx ops sa sb (fun k b => Src.trStmts fuel [] env' (toSrcStmts body) k b) env')
+    (hsaL : sa.loops = L) (hsaC : sa.cases = endL :: Cs) (hW : WaitSem cx fuel l w hs dIn d1) {sE : St} (hle : NamedLe sb sE)
+    {SCr : Src.Cases} {Hr Cr dOut : List LItem} (hR : SwSem cx fuel env endL L Cs sE False SCr Hr Cr d1 dOut)
+    (hnd : hasNone w = true → ∀ k nt b, (Src.trCases fuel [] (brkEnv env k) SCr k nt b).2.2.2 = none) :
+    SwSem cx fuel env endL L Cs sE False (wSrc w (.cons false ⟨bp.name, convParams bp.params⟩ (toSrcStmts body) SCr))
+      (hs ++ [LItem.ljump ⟨n, bp.name, bp.params⟩ (some l)] ++ Hr) ([LItem.label eB false] ++ Cr) dIn dOut := by
+  have hsub : ∀ k, (brkEnv env k).subst = [] := fun k => he.1
+  refine ⟨fun k nt b => ?_, ?_⟩
+  · obtain ⟨gW, _, _, _⟩ := hW.sem (brkEnv env k) (hsub k) k nt (.cons false ⟨bp.name, convParams bp.params⟩ (toSrcStmts body) SCr) b
+    rw [trCases_case fuel (brkEnv env k) (hsub k) _ _ SCr k nt b rfl rfl] at gW
+    exact (((hR.grow k nt b).trans ((hP _ (plainEnv_brkEnv he k)).grow _ _)).trans (Grow.push _ _)).trans gW.grow
+  intro k nt r pH pC hpH hpC b hag m j sC hl hc hex hin hend
+  have hPe := hP _ (plainEnv_brkEnv he k)
+  have hexA : ExitsOK cx m j sa (brkEnv env k) := hex.same (hsaL.trans hl.symm) (hsaC.trans hc.symm)
+  obtain ⟨nn, htrf, hRl⟩ := hPe.lone l hlone m j hexA (hin.le hle)
+  obtain ⟨gW, ebW, edW, cW⟩ := hW.sem (brkEnv env k) (hsub k) k nt (.cons false ⟨bp.name, convParams bp.params⟩ (toSrcStmts body) SCr) b
+  have gR := hR.grow k nt b
+  have cR := fun r' pH' pC' (h1 : Placed cx.rs r' pH' Hr) (h2 : Placed cx.rs r' pC' Cr) => hR.corr k nt r' pH' pC' h1 h2 b
+  generalize hT0 : Src.trCases fuel [] (brkEnv env k) SCr k nt b = T0 at gR cR
+  have hBd : Src.trStmts fuel [] (brkEnv env k) (toSrcStmts body) T0.2.1 T0.1 = (T0.1, nn) := htrf _ _
+  have htr := trCases_case fuel (brkEnv env k) (hsub k) ⟨bp.name, convParams bp.params⟩ (toSrcStmts body) SCr k nt b hT0 hBd
+  rw [htr] at gW ebW edW cW
+  simp only at gW ebW edW cW
+  generalize hTW : Src.trCases fuel [] (brkEnv env k) (wSrc w (.cons false ⟨bp.name, convParams bp.params⟩ (toSrcStmts body) SCr)) k nt b = TW
+    at hag gW ebW edW cW ⊢
+  obtain ⟨a1, a2⟩ := tbl_push T0.1 (.test ⟨bp.name, convParams bp.params⟩ nn T0.2.2.1)
+  have agR : AgreeOn cx.N cx.Z b T0.1 := hag.sub_grow (Grow.refl b) ((Grow.push _ _).trans gW.grow)
+  have agW : AgreeOn cx.N cx.Z (T0.1.push (.test ⟨bp.name, convParams bp.params⟩ nn T0.2.2.1)).1 TW.1 :=
+    hag.sub_grow (gR.trans (Grow.push _ _)) (Grow.refl _)
+  have hN : cx.N[(tbl T0.1).length]? = some (.test ⟨bp.name, convParams bp.params⟩ nn T0.2.2.1) := by
+    have hl1 := gW.len
+    rw [a1] at hl1
+    simp only [List.length_append, List.length_cons, List.length_nil] at hl1
+    rw [hag.2 _ gR.len (by omega), gW.same (by rw [a1]; simp), a1]
+    simp
+  have hpHs : Placed cx.rs r pH hs := hpH.left.left
+  have hitT : itemAt cx.rs ⟨r, pH + hs.length⟩ = some (.ljump ⟨n, bp.name, bp.params⟩ (some l)) :=
+    hpH.here' hs _ _ (by lst) rfl
+  have hpHr : Placed cx.rs r (pH + hs.length + 1) Hr :=
+    hpH.mid' (hs ++ [LItem.ljump ⟨n, bp.name, bp.params⟩ (some l)]) Hr [] (by simp) (by len_omega)
+  have hpCr : Placed cx.rs r (pC + 1) Cr := hpC.right
+  have hendR : R2 cx m j ⟨r, pC + 1 + Cr.length⟩ k := by
+    have e : pC + 1 + Cr.length = pC + ([LItem.label eB false] ++ Cr).length := by len_omega
+    rw [e]; exact hend
+  obtain ⟨tR, _, dR, xR⟩ := cR r (pH + hs.length + 1) (pC + 1) hpHr hpCr agR m j sC hl hc hex hin hendR
+  have hstep := lab_test hitT (isTest_not_jump _ htest) htest
+  refine ⟨fun hnt => ?_, fun hf => hf.elim, ?_, LabExport.comp gR.len xR
+    (LabExport.same (fun i hi => ((Pushes.push _ _).trans gW).same hi))⟩
+  · have hnt' : R2 cx m j ⟨r, pH + hs.length + 1 + Hr.length⟩ nt := by
+      have e : pH + hs.length + 1 + Hr.length = pH + (hs ++ [LItem.ljump ⟨n, bp.name, bp.params⟩ (some l)] ++ Hr).length := by len_omega
+      rw [e]; exact hnt
+    have hthis : R2 cx m j ⟨r, pH + hs.length⟩ (tbl T0.1).length :=
+      R2.test hstep (nodeStep_of hN) hRl.1 (by rw [LPos.next_eq r _ (pH + hs.length + 1) rfl]; exact (tR hnt').1)
+    exact cW r pH hpHs agW m j hRl.1 hthis
+  · rw [edW]
+    cases hn : hasNone w with
+    | true =>
+      obtain ⟨o, hd1⟩ := hW.dsome hn
+      have := hnd hn k nt b
+      rw [hT0] at this
+      rw [this] at dR
+      simp only [DefOK] at dR
+      simp only [if_true, DefOK]
+      exact ⟨o, l, by rw [dR, hd1], hRl⟩
+    | false =>
+      have hd1 := hW.dnone hn
+      simp only [Bool.false_eq_true, if_false]
+      rw [← hd1]; exact dR
 
 end ESV.Comp
